@@ -138,7 +138,7 @@ def usable(case: dict[str, Any]) -> bool:
     return True
 
 
-TRANSFORMS = ["forward", "revert_first", "revert_prev", "skip_step", "one_file_at_a_time", "touch_noise"]
+TRANSFORMS = ["forward", "revert_first", "revert_prev", "skip_step", "one_file_at_a_time", "touch_noise", "restore_backup", "all_at_once"]
 
 
 def trees_of(case: dict[str, Any]) -> list[dict[str, str]]:
@@ -168,8 +168,10 @@ def transform_history(case: dict[str, Any], tr: str, rng: Any) -> tuple[dict[str
     """New history derived from a multi-step corpus case: (initial tree, steps of file-level ops)."""
     trees = trees_of(case)
     seq = list(range(len(trees)))
-    if tr == "revert_first":
+    if tr in ("revert_first", "restore_backup"):
         seq = seq + [0]
+    elif tr == "all_at_once":
+        seq = [0, len(trees) - 1] if len(trees) > 1 else seq
     elif tr == "revert_prev":
         seq = seq + [max(0, len(trees) - 2), len(trees) - 1]
     elif tr == "skip_step" and len(trees) > 2:
@@ -187,4 +189,10 @@ def transform_history(case: dict[str, Any], tr: str, rng: Any) -> tuple[dict[str
                 ops = ops + [{"e": "touch", "path": rng.choice(sorted(prev))}]
             steps.append({"edits": ops, "gap_s": 2.0, "run": True})
         prev = trees[i]
+    if tr == "restore_backup" and steps:
+        # the last step puts the first version back the way `mv f.orig f` / `cp -p` / a restore from
+        # backup does: every restored file also gets back the (older) mtime it had then
+        for op in steps[-1]["edits"]:
+            if op["e"] == "write":
+                op["restore_mtime"] = True
     return trees[seq[0]], steps
